@@ -185,6 +185,19 @@ class Ctx:
     tier = 'quick'
 
 
+STATES = ('never', 'computed', 'used')
+
+
+def _prep(c0, state):
+    """lattice state before the dump: never asked for; computed; computed and used (a history of
+    read-only queries, exports and a pickle on the context and its lattice, e1.stir)"""
+    if state == 'computed':
+        c0.lattice
+    elif state == 'used':
+        e1.stir(c0)
+        c0.lattice
+
+
 def check_case(case, ctr):
     import concepts
     C = concepts.Context
@@ -227,14 +240,13 @@ def check_case(case, ctr):
         bad('todict-encoding', enc, _norm(d_full))
         return V
     no_lat = {k: v for k, v in enc.items() if k != 'lattice'}
-    for state in ('never', 'computed'):
+    for state in STATES:
         for flag in (False, True, None):
             c0 = case.fresh_ctx()
-            if state == 'computed':
-                c0.lattice
+            _prep(c0, state)
             d = c0.todict(ignore_lattice=flag)
             ctr['calls'] += 1
-            want_lat = (flag is False) or (flag is None and state == 'computed')
+            want_lat = (flag is False) or (flag is None and state != 'never')
             if state == 'never' and flag is None:
                 ctr['hit_lazy_absent'] += 1
             if _norm(d) != _norm(enc if want_lat else no_lat):
@@ -262,8 +274,7 @@ def check_case(case, ctr):
                      require_lattice=req, raw=raw)
             # JSON: path str, pathlib, file object
             c0 = case.fresh_ctx()
-            if state == 'computed':
-                c0.lattice
+            _prep(c0, state)
             p = os.path.join(Ctx.tmp, 'c.json')
             c0.tojson(p, ignore_lattice=flag)
             same(C.fromjson(p), 'json-path', state=state, dump_flag=flag)
@@ -284,19 +295,18 @@ def check_case(case, ctr):
                 Ctx.payloads.append(('json', case.ident(), text.encode('utf-8'), ref_dg))
         # python-literal (lattice included iff already computed)
         c0 = case.fresh_ctx()
-        if state == 'computed':
-            c0.lattice
+        _prep(c0, state)
         s = c0.tostring('python-literal')
         import ast
         lit = ast.literal_eval(s)
-        if _norm(lit) != _norm(enc if state == 'computed' else no_lat):
+        if _norm(lit) != _norm(enc if state != 'never' else no_lat):
             bad('python-literal-is-todict', None, lit, state=state)
         same(C.fromstring(s, 'python-literal'), 'python-literal-string', state=state)
         fp = os.path.join(Ctx.tmp, 'c.py')
         c0.tofile(fp, frmat='python-literal')
         with open(fp, encoding='utf-8') as f:
             ftext = f.read()
-        if _norm(ast.literal_eval(ftext)) != _norm(enc if state == 'computed' else no_lat):
+        if _norm(ast.literal_eval(ftext)) != _norm(enc if state != 'never' else no_lat):
             bad('python-literal-file-is-todict', None, ftext[:300], state=state)
         for spelled in ('Python-Literal', 'PYTHON-LITERAL'):
             try:
